@@ -34,6 +34,11 @@ CLAIMED = {
   note="Trusted: gowp, go/ssa, solvers; strings.Index/LastIndex as a fixed function with -1 <= r <= len(s)-len(t); utf16.Encode length bounds; argument lists not written during a native call (stable). Three defects fixed (substr overflow panic, charAt on generic receivers, lastIndexOf with -Infinity / huge positions), two recorded.",
   technique="contract-based deductive verification: safety VCs (slice bounds) and at_call assertions over ToInteger spec functions, go/ssa VCs discharged by z3/cvc5",
   ref="6 C09"),
+ "C12": dict(
+  text="Proof of the validity discipline and field conventions of Date: dateObject.Set makes the date invalid exactly for NaN, +-Infinity and |t| > 8.64e15 (TimeClip) and otherwise stores ToInteger(t) as an int64 Value and clears the invalid flag, for every double; epochToTime fails exactly outside the valid range; dateObjectOf throws for non-Date receivers; each of the 20 accessors returns NaN and each of the 9 formatters 'Invalid Date' for an invalid date; the shared setter prologue keeps an invalid date invalid, makes the receiver invalid when a supplied field is missing, NaN or infinite, and otherwise returns min(limit, argc) >= 1 fields; Date.UTC / the multi-argument constructor return NaN when any supplied field is NaN or infinite, pass ToInteger(year) (+1900 for 0..99), month+1 and day (default 1) to the calendar; months are shifted by one in both directions; the time value of a Go time is its UnixMilli. The calendar arithmetic itself (Go's time package), field extraction, ISO parsing/formatting and local time are not covered.",
+  note="Trusted: gowp, go/ssa, solvers; time.Date/Unix/UnixMilli are library calls (only their call arguments are specified); FunctionCall.thisObject is a trusted contract; argument lists stable during a native call; arguments assumed primitive in newDateTime/BeforeSet (valueOf of objects is user code). Three defects fixed (TimeClip, setTime on invalid dates, two-digit years), one recorded.",
+  technique="contract-based deductive verification: object invariant of dateObject as postconditions, ghost call events (calls ... as) and at_call assertions on library calls; VCs over go/ssa discharged by z3/cvc5",
+  ref="6 C12"),
  "C13": dict(
   text="Proof for all doubles that Math.round equals the ES5 15.8.2.15 definition (ties up, signed zero), the Math.pow/atan2 NaN rows that do not depend on library accuracy, and that escape() leaves exactly the B.2.1 character set unescaped; further kernels as listed in the evidence. Accuracy of transcendental functions and the URI sets (regexp, net/url) are not covered.",
   note="Trusted: gowp, go/ssa, solvers; math.Floor/Ceil/Copysign/Pow per Go documentation (assumed contracts listed in the evidence); argument arrays assumed not written during a native call.",
